@@ -1,6 +1,7 @@
 """C09 — deleting vertices keeps a shape and its skin data consistent (DESIGN §5 C09)."""
 from facts import is_node, walk, where, show
 import flow
+import report
 import paths
 from paths import Event, render
 import c02
@@ -264,6 +265,100 @@ def run(F, chk):
                           "%s builds its index-collapse map from the size of `%s` after erasing from it: the map is too short and "
                           "indices at or above the new size are left unmapped" % (fn["name"], cont))
     chk.floor(R5, 1)
+
+    # ---------------------------------------------------------------- R9.6
+    R6 = chk.rule("R9.6", "a member array that the class's reader (Sync) sizes only under a data flag (`if (hasPoints) points.resize(...)`) "
+                          "is indexed by the vertex-deletion code only under that flag, under a test of the array's own size, or inside "
+                          "a loop bounded by it — a loop over a sibling array's length reads past an array the file did not carry")
+    import re as _re
+    import arrays as _arrays
+    import versions as _versions
+    VE6 = _versions.VersionEval(F)
+    S6 = paths.Summarizer(F, c02.make_primitive(F), mode=flow.MODE_READ, value_proxies=True,
+                          node_kinds=("Call", "OpCall", "Construct", "Assign", "Unary"))
+    gated = {}
+    for fn in F.fns.values():
+        if fn.get("short") != "Sync" or fn.get("tmpl") == "pattern" or not fn.get("cls"):
+            continue
+        for ev in S6.events(fn["id"]):
+            if ev.kind == "mut" and ev.info.get("op") == "resize" and ev.path and ev.path[0][0] == "this" and len(ev.path) == 2 \
+                    and len(ev.chain) == 1:
+                gn = set()
+                for g in ev.guards:
+                    node = flow.KEYNODE.get(g[0])
+                    expr = node[1] if isinstance(node, tuple) else node
+                    if is_node(expr) and VE6.is_version_expr(expr):
+                        continue
+                    if len(g) > 2 and g[2]:
+                        continue
+                    if g[1] is True and _re.fullmatch(r"[A-Za-z_]\w*", g[0]):
+                        gn.add(g[0])
+                own, _ = F.find_field(fn["cls"], ev.path[1])
+                gated.setdefault((own, ev.path[1]), []).append(gn)
+    gated = {k: set.intersection(*v) for k, v in gated.items() if set.intersection(*v)}
+    chk.extra["flag_gated_arrays"] = sorted("%s::%s if %s" % (k[0], k[1], "/".join(sorted(v))) for k, v in gated.items())
+    if len(gated) < 10:
+        raise report.Broken("R9.6: fewer than 10 flag-gated arrays discovered in the Sync bodies (%d)" % len(gated))
+
+    def _peel6(e):
+        while is_node(e) and e["k"] == "Cast":
+            e = e["e"]
+        return e
+
+    n6 = 0
+    del_fns = [f for f in F.fns.values() if f.get("short") == "notifyVerticesDelete" and f.get("body") and f.get("tmpl") != "pattern"]
+    for fn in sorted(del_fns, key=lambda f: f["id"]):
+        cands = []
+        for x in walk(fn["body"]):
+            if x["k"] != "Subscript":
+                continue
+            b = _peel6(x["base"])
+            if is_node(b) and b["k"] == "Member" and (b.get("owner"), b["name"]) in gated:
+                cands.append((x, b))
+        if not cands:
+            continue
+        ids = {id(x) for x, _ in cands}
+        sites = {}
+
+        class Z6(_arrays.ArrayCoherence):
+            def on_node(self, n, st):
+                st2 = _arrays.ArrayCoherence.on_node(self, n, st)
+                if st2 is not None and not self.muted and id(n) in ids:
+                    sites[id(n)] = (st2, list(self.loops))
+                return st2
+
+            def _check_subscript(self, n, st):
+                return
+
+            def _check_raw(self, n, st):
+                return
+
+        Z6(F, fn).run()
+        for x, b in cands:
+            if id(x) not in sites:
+                continue
+            st, loops = sites[id(x)]
+            c = show(b)
+            if any(f[0] == "Z" and f[1] == c for f in st):
+                continue
+            names = set()
+            for f in st:
+                if f[0] == "G":
+                    names |= set(_re.findall(r"[A-Za-z_]\w*", f[1]))
+            for li in loops:
+                if li:
+                    names |= set(_re.findall(r"[A-Za-z_]\w*", li[4] if len(li) > 4 else li[1]))
+            gate = gated[(b["owner"], b["name"])]
+            ok = bool(gate & names) or b["name"] in names
+            n6 += 1
+            chk.instance(R6, ok=ok, sample={"fn": fn["name"], "array": c, "flag": sorted(gate)})
+            if not ok:
+                chk.violation("R9.6", "C09/R9.6:%s:%s" % (fn["name"].split("(")[0], b["name"]), where(fn, x),
+                              "%s indexes `%s`, which %s::Sync sizes only under `%s`, inside a loop that is not bounded by that array "
+                              "and without testing the flag or the array's size: for a block stored without it (the library reads "
+                              "and writes such blocks) deleting vertices reads past the empty array" %
+                              (fn["name"], c, b["owner"].split("::")[-1], "/".join(sorted(gate))))
+    chk.floor(R6, 1)
 
     chk.assumptions += ["order preservation inside EraseVectorIndices, triangle re-indexing and partition re-fitting are value-level (C18-style) and not decided"]
     chk.extra["explanation"] = ("coverage of every per-vertex array by the deletion notification, override chain, orchestrator "
